@@ -62,6 +62,297 @@ def suffix_match(path, suffix):
     )
 
 
+# ---------------------------------------------------------------------------------------------------
+# Normal-form mode.  ./check evaluates every rule twice: on the terms as written (CANON = False) and on
+# their normal form (CANON = True); a rule instance is reported only if it fails both times.  The normal
+# form removes the idiom choices a behaviour-preserving refactoring typically flips:
+#   * `match x { Ok(v) => BODY(v), Err(e) => return Err(e) }`      ==>  BODY(x?)
+#   * `if let P = x { T } else { E }`                              ==>  match x { P => T, _ => E }
+#   * a call of a private helper with exactly one call site in the crate and no early return of its own
+#                                                                  ==>  the helper's body (extract-function)
+CANON = False
+# which rewrites the normal-form pass applies (./check runs several single-idiom passes, see MODES there)
+MODE = frozenset(["iflet2match", "try", "guards", "optry", "helpers"])
+KNOWN_FNS = None  # function paths of the tree the tables were written for (props/known_fns.json)
+
+
+def known_fns():
+    global KNOWN_FNS
+    if KNOWN_FNS is None:
+        import json
+        import os
+
+        f = os.path.join(os.path.dirname(os.path.dirname(os.path.abspath(__file__))), "props", "known_fns.json")
+        try:
+            KNOWN_FNS = set(json.load(open(f)))
+        except Exception:
+            KNOWN_FNS = set()
+    return KNOWN_FNS
+
+
+def new_helper(crate, npath, fn):
+    """A private function that did not exist in the tree the tables were written for (extract-function)."""
+    return (
+        str(fn.get("vis", "")).startswith("Restricted")
+        and not fn.get("impl_trait")
+        and "hir" in fn
+        and not fn.get("in_test_mod")
+        and not fn["span"].endswith("!")
+        and npath not in known_fns()
+    )
+
+
+def helper_fns(crate):
+    """Private functions all of whose call sites are in one single other function (MIR call census)."""
+    h = getattr(crate, "_helper_fns", None)
+    if h is not None:
+        return h
+    from collections import Counter
+
+    calls = Counter()
+    callers = {}
+    for p, fn in crate.fns.items():
+        mir = fn.get("mir")
+        if not mir:
+            continue
+        for b in mir["blocks"]:
+            t = b.get("term") or {}
+            if t.get("k") == "call" and isinstance(t.get("callee"), str):
+                c = norm(t["callee"])
+                calls[c] += 1
+                callers.setdefault(c, set()).add(fn["npath"])
+    h = {}
+    for p, fn in crate.fns.items():
+        if "hir" not in fn or fn.get("in_test_mod") or not str(fn.get("vis", "")).startswith("Restricted"):
+            continue
+        if fn.get("impl_trait") or fn["span"].endswith("!"):
+            continue
+        cs = callers.get(p) or set()
+        if len(cs) == 1 and cs != {p}:  # every call site is in one and the same function
+            h[p] = next(iter(cs))
+    crate._helper_fns = h
+    return h
+
+
+_FOLD_IDS = [0]
+
+
+def canon(t):
+    """Normal form of a term (see CANON)."""
+    if not isinstance(t, tuple) or not t:
+        return t
+    if isinstance(t[0], str):
+        t = (t[0],) + tuple(canon(x) for x in t[1:])
+    else:
+        return tuple(canon(x) for x in t)
+    k = t[0]
+    if k == "if" and isinstance(t[1], tuple) and t[1] and t[1][0] == "iflet" and "iflet2match" in MODE:
+        P, X = t[1][1], t[1][2]
+        els = t[3] if len(t) > 3 and t[3] is not None else ("tuple", ())
+        return canon_match(("match", X, ((P, None, t[2]), (("pwild",), None, els))))
+    if k == "call" and "fold2loop" in MODE and isinstance(t[1], str) and t[1].split("::")[-1] == "fold" and len(t[2]) == 3 and t[2][2][0] == "closure" and t[2][2][2] == 2:
+        # it.fold(init, |acc, x| BODY)  ==>  { let mut acc = init; for x in it { acc = BODY; } acc }
+        it, init, clo = t[2]
+        import zlib
+
+        fid = zlib.crc32(repr(t).encode()) % 9000  # the same fold written twice (let-substitution) gets the same loop
+        acc = ("var", 990000 + fid, "acc")
+        body = _subst(_subst(clo[3], ("cparam", clo[1], 0), acc), ("cparam", clo[1], 1), ("item", it))
+        loop = ("for", it, ("pbind", 980000 + fid, "x", None), ("seq", (("semi", ("assign", acc, body)),), ("tuple", ())))
+        return ("seq", (("let", ("pbind", acc[1], "acc", None), init), ("semi", loop)), acc)
+    if k == "match":
+        t = canon_match(t)
+        if t[0] == "match" and "match2iflet" in MODE and len(t[2]) == 2:
+            (p1, g1, b1), (p2, g2, b2) = t[2]
+            if g1 is None and g2 is None and p1[0] == "pctor" and (p2[0] == "pwild" or (p2[0] == "pctor" and not p2[2])):
+                e2 = _flat(b2)
+                return ("if", ("iflet", p1, t[1]), b1, None if e2 == ("tuple", ()) else b2)
+        return t
+    return t
+
+
+def _is_none(x):
+    return isinstance(x, tuple) and x[:1] == ("ctor",) and x[1].endswith("::None") and not x[2]
+
+
+def _strip_ret(t):
+    """`{ ...; return v }` / `return v` -> (`{ ...; v }`, True); anything else -> (t, False)."""
+    if t[0] == "ret":
+        return (t[1] if len(t) > 1 else ("tuple", ())), True
+    if t[0] == "seq":
+        r, ok = _strip_ret(t[2])
+        if ok:
+            return ("seq", t[1], r), True
+        if t[1] and t[1][-1][0] == "semi" and t[2] == ("tuple", ()):
+            r, ok = _strip_ret(t[1][-1][1])
+            if ok:
+                return ("seq", t[1][:-1], r), True
+    return t, False
+
+
+def canon_result(t):
+    """Rewrites that are only valid where the value of `t` is the function's return value:
+       * guard clauses:  `if c { return a; } REST`            ==>  `if c { a } else { REST }`
+       * `match x { Some(v) => BODY(v), None => None }`        ==>  BODY(x?)      (Option `?`)"""
+    if not isinstance(t, tuple) or not t:
+        return t
+    if t[0] == "seq" and t[1] and "whilelet" in MODE:
+        # `while let P = x { BODY } r`  ==>  `loop { match x { P => BODY[break := return r], _ => return r } }`
+        last = t[1][-1]
+        r = _flat(t[2])
+        if last[0] == "semi" and last[1][0] == "while" and last[1][1][:1] == ("iflet",) and r[0] in ("var", "param", "lit", "field"):
+            P, X = last[1][1][1], last[1][1][2]
+            body = _subst(last[1][2], ("break", None), ("ret", r))
+            lp = ("loop", ("match", X, ((P, None, body), (("pwild",), None, ("ret", r)))))
+            return ("seq", t[1][:-1], lp) if t[1][:-1] else lp
+    if t[0] == "seq" and len(t[1]) == 1 and "loop2any" in MODE and _flat(t[2]) == ("lit", "Bool(false)"):
+        # `for x in it { if COND(x) { return true; } } false`  ==>  `it.any(|x| COND(x))`
+        st = t[1][0]
+        if st[0] == "semi" and st[1][0] == "for":
+            it, body = st[1][1], st[1][3]
+            b = body
+            while b[0] == "seq" and all(x[0] == "let" for x in b[1]):
+                b = b[2]
+            if b[0] == "seq" and len(b[1]) == 1 and b[2] == ("tuple", ()) and b[1][0][0] == "semi":
+                b = b[1][0][1]
+            if b[0] == "if" and (len(b) < 4 or b[3] is None):
+                inner, ok = _strip_ret(b[2])
+                if ok and _flat(inner) == ("lit", "Bool(true)"):
+                    name = "canon::any"
+                    cond = _subst(b[1], ("item", it), ("cparam", name, 0))
+                    return ("call", "std::iter::Iterator::any", (it, ("closure", name, 1, cond)))
+    if t[0] == "seq":
+        stmts, res = t[1], t[2]
+        for i, st in enumerate(stmts):
+            if "guards" in MODE and st[0] == "semi" and st[1][0] == "if" and (len(st[1]) < 4 or st[1][3] is None):
+                body, ok = _strip_ret(st[1][2])
+                if ok:
+                    rest = canon_result(("seq", stmts[i + 1 :], res)) if (stmts[i + 1 :] or True) else res
+                    new_if = ("if", st[1][1], body, rest)
+                    return ("seq", stmts[:i], new_if) if stmts[:i] else new_if
+        r2 = canon_result(res)
+        if r2[0] == "seq" and not stmts:
+            return r2
+        return ("seq", stmts, r2)
+    if t[0] == "if" and len(t) > 3 and t[3] is not None:
+        return ("if", t[1], canon_result(t[2]), canon_result(t[3]))
+    if t[0] == "ret" and "guards" in MODE:
+        return canon_result(t[1]) if len(t) > 1 else ("tuple", ())
+    if t[0] == "match":
+        X, arms = t[1], t[2]
+        if len(arms) == 2 and "optry" in MODE:
+            so = [a for a in arms if a[0][0] == "pctor" and a[0][1].endswith("::Some") and a[1] is None]
+            no = [a for a in arms if a not in so and a[1] is None and _is_none(_flat(a[2]))]
+            if len(so) == 1 and len(no) == 1:
+                okv = ("proj", X, so[0][0][1], 0)
+                return canon_result(_subst(so[0][2], okv, ("try", X)))
+        return ("match", X, tuple((p, g, canon_result(b)) for p, g, b in arms))
+    return t
+
+
+def try_expand(t, option):
+    """`let v = x?; REST` / `lhs = x?; REST`  ==>  `match x { Ok(v) => { ...; REST }, Err(e) => return Err(e) }`
+    (Some / None => None for an Option-returning function): the reverse of the `try` rewrite, at statement level
+    of the function body."""
+    if not (isinstance(t, tuple) and t and t[0] == "seq"):
+        return t
+    stmts, res = t[1], t[2]
+    for i, st in enumerate(stmts):
+        X = None
+        if st[0] == "let" and isinstance(st[2], tuple) and st[2][:1] == ("try",):
+            X = st[2][1]
+            head = ()
+        elif st[0] == "semi" and st[1][0] == "assign" and isinstance(st[1][2], tuple) and st[1][2][:1] == ("try",):
+            X = st[1][2][1]
+            head = None
+        if X is None:
+            continue
+        okc, errc = ("std::prelude::v1::Some", "std::prelude::v1::None") if option else ("std::prelude::v1::Ok", "std::prelude::v1::Err")
+        okv = ("proj", X, okc, 0)
+        rest_stmts = tuple(_subst(x, ("try", X), okv) for x in ((st,) if head is None else ()) + tuple(stmts[i + 1 :]))
+        rest = try_expand(("seq", rest_stmts, _subst(res, ("try", X), okv)), option)
+        if option:
+            bad = ("ctor", errc, ())
+            arms = ((("pctor", okc, (("pbind", -1, "v", None),), None), None, rest), (("pctor", errc, (), None), None, bad))
+        else:
+            bad = ("ret", ("ctor", errc, (("proj", X, errc, 0),)))
+            arms = ((("pctor", okc, (("pbind", -1, "v", None),), None), None, rest), (("pctor", errc, (("pbind", -2, "e", None),), None), None, bad))
+        m = ("match", X, arms)
+        return ("seq", tuple(stmts[:i]), m) if stmts[:i] else m
+    return t
+
+
+def unguard(t):
+    """`if c { A } else { REST }` in result position  ==>  `if c { return A; } REST`  (reverse of `guards`)."""
+    if not isinstance(t, tuple) or not t:
+        return t
+    if t[0] == "seq":
+        r = unguard(t[2])
+        if r[0] == "seq":
+            return ("seq", tuple(t[1]) + tuple(r[1]), r[2])
+        return ("seq", t[1], r)
+    if t[0] == "if" and len(t) > 3 and t[3] is not None and not (isinstance(t[1], tuple) and t[1][:1] == ("iflet",)):
+        rest = unguard(t[3])
+        g = ("semi", ("if", t[1], ("seq", (("semi", ("ret", _flat(t[2]) if _flat(t[2])[0] != "seq" else t[2])),), ("tuple", ())), None))
+        if rest[0] == "seq":
+            return ("seq", (g,) + tuple(rest[1]), rest[2])
+        return ("seq", (g,), rest)
+    return t
+
+
+def _flat(t):
+    while isinstance(t, tuple) and t and t[0] == "seq" and not t[1]:
+        t = t[2]
+    return t
+
+
+def _pat_shape(p):
+    if isinstance(p, tuple):
+        if p and p[0] == "pbind":
+            return ("pbind", None, None, _pat_shape(p[3]) if len(p) > 3 else None)
+        return tuple(_pat_shape(x) for x in p)
+    return p
+
+
+def canon_match(t):
+    X, arms = t[1], t[2]
+    if "guardarms" in MODE:
+        # `P if g => A, P => B`  ==>  `P => if g { A } else { B }`
+        out = []
+        i = 0
+        arms = list(arms)
+        while i < len(arms):
+            p, g, b = arms[i]
+            if g is not None and i + 1 < len(arms) and arms[i + 1][1] is None and _pat_shape(arms[i + 1][0]) == _pat_shape(p):
+                out.append((p, None, ("if", g, b, arms[i + 1][2])))
+                i += 2
+            else:
+                out.append(arms[i])
+                i += 1
+        arms = tuple(out)
+        t = ("match", X, arms)
+    if len(arms) == 2 and "try" in MODE:
+        ok = [a for a in arms if a[0][0] == "pctor" and a[0][1].endswith("::Ok") and a[1] is None]
+        er = [a for a in arms if a[0][0] == "pctor" and a[0][1].endswith("::Err") and a[1] is None]
+        if len(ok) == 1 and len(er) == 1:
+            eb = er[0][2]
+            while eb[0] == "seq" and not eb[1]:
+                eb = eb[2]
+            errv = ("proj", X, er[0][0][1], 0)
+            if eb[0] == "ret" and eb[1][0] == "ctor" and eb[1][1].endswith("::Err") and eb[1][2] == (errv,):
+                okv = ("proj", X, ok[0][0][1], 0)
+                return _subst(ok[0][2], okv, ("try", X))
+    return t
+
+
+def _subst(t, a, b):
+    if t == a:
+        return b
+    if isinstance(t, tuple):
+        return tuple(_subst(x, a, b) for x in t)
+    return t
+
+
 class Evaluator:
     def __init__(self, crate, identity=None, inline=None, max_inline=4, keep_clone=False, extra_identity=(), named_lets=False):
         self.crate = crate
@@ -69,6 +360,36 @@ class Evaluator:
         if keep_clone:
             self.identity.discard("std::clone::Clone::clone")
         self.inline_pred = inline if inline is not None else default_inline
+        if CANON:
+            base = self.inline_pred
+            helpers = helper_fns(crate)
+            ev0 = self
+
+            def pred(npath, fn, _base=base):
+                if _base(npath, fn):
+                    return True
+                if "helpers" in MODE and new_helper(crate, npath, fn):
+                    # only helpers without an early return of their own (`return`, `?`): their body can stand for the call
+                    tt = ev0._helper_body_ok.get(npath)
+                    if tt is None:
+                        try:
+                            saved = ev0.inline_pred
+                            ev0.inline_pred = _base
+                            body = ev0.fn_term(fn, depth=1)
+                            ev0.inline_pred = saved
+                            early = any(x[0] in ("ret", "try") for x in subterms(body))
+                            out = str(fn.get("output") or "")
+                            # a helper with early exits stands for its call only where the caller propagates them (`helper(..)?`):
+                            # accepted when it returns a Result / Option, as those helpers do
+                            tt = (not early) or ("Result" in out or "Option" in out)
+                        except Exception:
+                            tt = False
+                        ev0._helper_body_ok[npath] = tt
+                    return tt
+                return False
+
+            self._helper_body_ok = {}
+            self.inline_pred = pred
         self.max_inline = max_inline
         self.named_lets = named_lets
         self._reassigned_cache = {}
@@ -82,7 +403,14 @@ class Evaluator:
             val = args[i] if args is not None and i < len(args) else ("param", i, _pname(p))
             self._bind(p, val, env, reassigned)
         ctx = {"fn": fn, "reassigned": reassigned, "depth": depth}
-        return self.ev(fn["hir"], env, ctx)
+        t = self.ev(fn["hir"], env, ctx)
+        if CANON and depth == 0:
+            t = canon_result(canon(t))
+            if "tryexpand" in MODE:
+                t = try_expand(t, "Option" in str(fn.get("output") or ""))
+            if "unguards" in MODE:
+                t = unguard(t)
+        return t
 
     def _reassigned(self, fn):
         k = fn["npath"]
